@@ -87,14 +87,24 @@ class ScalableDiscipline(Discipline):
                 If empty, use the original sizes.
             **parameters: The parameters for the model.
         """  # noqa: D205 D212
-        self.scalable_model = ScalableModelFactory().create(
-            name, data=data, sizes=sizes, **parameters
-        )
+        self.__model_definition = (name, data, dict(sizes), parameters)
+        self.__create_scalable_model()
         super().__init__(self.scalable_model.name)
         self._initialize_grammars(data)
         self.io.input_grammar.defaults = self.scalable_model.default_input_data
         self.add_differentiated_inputs(self.io.input_grammar)
         self.add_differentiated_outputs(self.io.output_grammar)
+
+    def __create_scalable_model(self) -> None:
+        """Create the scalable model from its definition."""
+        name, data, sizes, parameters = self.__model_definition
+        self.scalable_model = ScalableModelFactory().create(
+            name, data=data, sizes=sizes, **parameters
+        )
+
+    def __setstate__(self, state: StrKeyMapping) -> None:
+        super().__setstate__(state)
+        self.__create_scalable_model()
 
     def _initialize_grammars(self, data: IODataset) -> None:
         """Initialize input and output grammars from data names.
